@@ -28,6 +28,7 @@ import subprocess
 import sys
 
 from . import common, tlc, project, cliargs
+from .exc import exc_name
 
 INT_LIMIT = 2 ** 31 - 2
 MARK = "\x00"                       # marks default (un-named) labels, see project_formula
@@ -605,7 +606,7 @@ def attempt(fn):
     except tlc.MachineryError:
         raise
     except Exception as e:
-        return "", type(e).__name__[:24]
+        return "", exc_name(e)[:24]
 
 
 def to_stream(F, **kw):
